@@ -15,7 +15,7 @@ func (p *Parser) parseBlock(parser *Parser) (Node, error) {
 	parser.tokenIndex++
 
 	// Expect the block end token
-	if parser.tokenIndex >= len(parser.tokens) || parser.tokens[parser.tokenIndex].Type != TOKEN_BLOCK_END {
+	if parser.tokenIndex >= len(parser.tokens) || !isBlockEndToken(parser.tokens[parser.tokenIndex].Type) {
 		return nil, fmt.Errorf("expected block end token after block name at line %d", blockLine)
 	}
 	parser.tokenIndex++
@@ -27,7 +27,7 @@ func (p *Parser) parseBlock(parser *Parser) (Node, error) {
 	}
 
 	// Expect endblock tag
-	if parser.tokenIndex >= len(parser.tokens) || parser.tokens[parser.tokenIndex].Type != TOKEN_BLOCK_START {
+	if parser.tokenIndex >= len(parser.tokens) || !isBlockStartToken(parser.tokens[parser.tokenIndex].Type) {
 		return nil, fmt.Errorf("expected endblock tag at line %d", blockLine)
 	}
 	parser.tokenIndex++
@@ -49,7 +49,7 @@ func (p *Parser) parseBlock(parser *Parser) (Node, error) {
 	}
 
 	// Expect the final block end token
-	if parser.tokenIndex >= len(parser.tokens) || parser.tokens[parser.tokenIndex].Type != TOKEN_BLOCK_END {
+	if parser.tokenIndex >= len(parser.tokens) || !isBlockEndToken(parser.tokens[parser.tokenIndex].Type) {
 		return nil, fmt.Errorf("expected block end token after endblock at line %d", parser.tokens[parser.tokenIndex-1].Line)
 	}
 	parser.tokenIndex++
